@@ -167,6 +167,7 @@ def nontrivial(case, out):
     if not out or out[0] == 99999 or (out[:1] == [2] and len(out) == 2):
         return False
     k = case[0]
+    out = out[2:]
     if k in (1, 2):
         steps = [out[i:i + 4] for i in range(0, len(out) - 1, 4)]
         # some future was polled and the descriptor got closed before the final teardown or a poll completed
